@@ -10,6 +10,8 @@ let () =
     | "TRANSPORT" -> Transportsuite.run
     | "EXPAND" -> Expandsuite.run
     | "OPL" | "TYPECHK" -> Oplsuite.run
+    | "WATCH" -> Watchsuite.run
+    | "ROBUST" -> Robustsuite.run
     | s -> failwith ("unknown suite " ^ s) in
   try
     while true do
